@@ -1042,8 +1042,11 @@ func (m *Model) closeBatch(a *MAuction, fx *BlockEffects, w *BlockWitness) {
 			rhs := new(big.Int).Mul(a.ExtRate, big.NewInt(last))
 			d := new(big.Int).Sub(lhs, rhs)
 			extend = d.Sign() >= 0
-			if new(big.Int).Abs(d).Cmp(big.NewInt(last)) < 0 && d.Sign() != 0 && w != nil {
-				// |drop - rate| < 1e-18: either outcome accepted (L2)
+			if d.Sign() < 0 && new(big.Int).Lsh(new(big.Int).Neg(d), 1).Cmp(big.NewInt(last)) < 0 && w != nil {
+				// the true fall is below the rate by less than 0.5e-18: the quotient cur/last, taken at the
+				// 18-decimal precision of the decimal type with standard rounding, lands on 1 - rate.
+				// Either outcome is accepted there (L2); a fall at or above the rate must extend, a fall
+				// short of it by 0.5e-18 or more must settle.
 				if v, ok := w.Extended[a.ID]; ok {
 					extend = v
 					m.Relax["L2"]++
